@@ -207,7 +207,12 @@ def judge(ctx, mode, geno, geno_arr, costs, code, roundtrip, acc, case):
         elif code[0] == "s":
             ret = ctx.tree.map_mutations(geno_arr.astype("int32"), list(alleles), arg)
         else:
-            # int8 genotypes in rotating memory layouts (strided / reversed / column views, read-only)
+            # int8 genotypes in rotating memory layouts (strided / reversed / column views, read-only); an index
+            # ancestral state as a Python int or as a numpy integer scalar (what indexing an array gives)
+            if isinstance(arg, int) and (sum(geno) + len(geno)) % 2:
+                import numpy as np
+
+                arg = (np.int8, np.int64, np.uint32)[len(geno) % 3](arg)
             ret = ctx.tree.map_mutations(AF.reform(geno_arr, sum(geno) + len(geno))[1], alleles, ancestral_state=arg)
         anc_ret, muts = ret
         muts = list(muts)
